@@ -62,7 +62,15 @@ func (c *ClientCodec) Decode(response []byte, context *core.ClientContext) (resu
 			}
 			result = []interface{}{t.Indirect(p)}
 		default:
-			res := resp.Result.([]interface{})
+			// the result comes from the peer: it need not be a list, and it need
+			// not have as many elements as the caller declared
+			res, ok := resp.Result.([]interface{})
+			if !ok {
+				res = []interface{}{resp.Result}
+			}
+			if len(res) > n {
+				res = res[:n]
+			}
 			result = make([]interface{}, 0, len(res))
 			for i, r := range res {
 				data, _ := c.Codec.Marshal(r)
